@@ -40,25 +40,11 @@ def indesc(wire):
             "newseq": int(d.get("36", 0)), "gapfill": d.get("123") == "Y"}
 
 
-CFGXML = """<?xml version='1.0' encoding='ISO-8859-1'?>
-<fix8>
-  <session name="S1" role="%s" fix_version="4200" active="true" ip="127.0.0.1" port="11001"
-           sender_comp_id="%s" target_comp_id="%s" heartbeat_interval="30" ignore_logon_sequence_check="true"
-           process_model="threaded" />
-</fix8>
-"""
-
-
-def run_script(live, script, wd, idx, ignore=False):
-    """ignore=True: both sides carry a SessionConfig with ignore_logon_sequence_check (what ReliableClientSession users
-    set), so that a Logon numbered above the expected number is followed by the resend dialogue instead of a Logout."""
+def run_script(live, script, wd, idx):
     cfg = {"prop": "C21", "role": "pair", "persist": "file", "sender": "INI", "target": "ACC", "hb": 30, "reset": False,
-           "enforce": True, "always_assign": False, "cfg_send": 0, "cfg_recv": 0, "clients": [], "ignore_logon_gap": ignore}
+           "enforce": True, "always_assign": False, "cfg_send": 0, "cfg_recv": 0, "clients": []}
     evs = [{"e": "Reset", "cfg": cfg}]
     live.cmd("reset {}")
-    if ignore:
-        live.cmd("@a set sessioncfg %s/ignore_a.xml" % wd)
-        live.cmd("@b set sessioncfg %s/ignore_b.xml" % wd)
     live.cmd("outhex on")
     now = [sc.T0]
     live.cmd("clock %d 0" % now[0])
@@ -195,19 +181,9 @@ def run(ctx):
         take = rng.sample(many, min(len(many), rlimit * 2 // 3))
         rscripts = take + rng.sample(rest, min(len(rest), rlimit - len(take)))
     scripts = scripts + rscripts
-    # third family: histories that lose something in flight, replayed with ignore_logon_sequence_check on both sides, so
-    # that the resend dialogue between the two real sessions (file persister retrieval, gap fills) is reached
-    lossy = [h for h in scripts if any(x["op"] == "Drop" for x in h) and any(x["op"] == "Send" for x in h)]
-    if len(lossy) > (250 if ctx.quick else 3000):
-        lossy = rng.sample(lossy, 250 if ctx.quick else 3000)
-    nplain = len(scripts)
-    scripts = scripts + lossy
     wd = os.path.join(ctx.workdir, "c21")
     shutil.rmtree(wd, ignore_errors=True)
     os.makedirs(wd)
-    for x, (role, me, you) in (("a", ("initiator", "INI", "ACC")), ("b", ("acceptor", "ACC", "INI"))):
-        with open(os.path.join(wd, "ignore_%s.xml" % x), "w") as fh:
-            fh.write(CFGXML % (role, me, you))
     nproc = 12
     parts = [list(range(i, len(scripts), nproc)) for i in range(nproc)]
 
@@ -216,7 +192,7 @@ def run(ctx):
         live = sc.Live("asan" if pi == 0 else "plain", cwd=wd)
         try:
             for j in parts[pi]:
-                out[j] = run_script(live, scripts[j], wd, j, ignore=j >= nplain)
+                out[j] = run_script(live, scripts[j], wd, j)
         finally:
             live.close()
         return out
@@ -229,15 +205,15 @@ def run(ctx):
     fails, labels, info = tlc.validate_execs("T_Session.tla", "T_Session.cfg", traces, ctx.workdir, "c21", chunks=10)
     ctx.add_validation(info, len(traces))
     sc.note_labels(ctx, labels)
-    for j, s in enumerate(scripts):
-        ctx.case([j >= nplain, s], nontrivial=len(s) > 1)
+    for s in scripts:
+        ctx.case(s, nontrivial=len(s) > 1)
     import session_model
     seen = set()
     for f in fails:
         if (f["exec"], f["sig"]) in seen:
             continue
         seen.add((f["exec"], f["sig"]))
-        ctx.fail(f["sig"], f["why"], {"script": scripts[f["exec"]], "ignore_logon_sequence_check": f["exec"] >= nplain, "pos": f["pos"], "event": f["event"],
+        ctx.fail(f["sig"], f["why"], {"script": scripts[f["exec"]], "pos": f["pos"], "event": f["event"],
                                       "trace": [session_model.slim(e) if "out" in e else e for e in traces[f["exec"]]]})
     ctx.tick("validate")
     ctx.rule = ("seeded sample (%d) of the histories of the TLC-explored two-session design (Send/Deliver/Drop/Reconnect/Restart "
